@@ -130,6 +130,11 @@ void Ruleset::prerun(OomdContext& context) {
   for (const auto& action : action_group_) {
     action->prerun(context);
   }
+  // per-cgroup instances of a ruleset-level cgroup own their plugins; they
+  // need prerun() on every tick too, not only on the tick they are created
+  for (const auto& runnable : runnable_rulesets_) {
+    runnable.second->prerun(context);
+  }
 }
 
 uint32_t Ruleset::runOnce(OomdContext& context) {
